@@ -39,6 +39,8 @@ type Term struct {
 }
 
 type TermFactory struct {
+	allocSeq map[int]int // reference terms returned by allocations -> allocation order
+	allocCtr int
 	next   int
 	hash   map[string]*Term
 	consts []*Term          // declared constants in order
@@ -57,7 +59,7 @@ type TermFactory struct {
 }
 
 func NewFactory() *TermFactory {
-	return &TermFactory{hash: map[string]*Term{}, funs: map[string]string{}, declared: map[int]bool{}, seqs: map[string]SeqInfo{}, dtypes: map[string]string{}, unfold: map[int]*Term{}}
+	return &TermFactory{allocSeq: map[int]int{}, hash: map[string]*Term{}, funs: map[string]string{}, declared: map[int]bool{}, seqs: map[string]SeqInfo{}, dtypes: map[string]string{}, unfold: map[int]*Term{}}
 }
 
 func (f *TermFactory) key(op string, sort Sort, name string, args []*Term) string {
@@ -638,6 +640,13 @@ func (f *TermFactory) Select(a, i *Term) *Term {
 		if a.args[1].ival != nil && i.ival != nil {
 			a = a.args[0]
 			continue
+		}
+		// two references returned by different allocations are different objects
+		if sa, ok := f.allocSeq[a.args[1].id]; ok {
+			if sb, ok := f.allocSeq[i.id]; ok && sa != sb {
+				a = a.args[0]
+				continue
+			}
 		}
 		break
 	}
